@@ -619,4 +619,239 @@ theorem insertOne_upsert_view {s s' : St D} {b : String} {e : Ev D} {oi : Option
     have : ¬ (row.id = i ∧ row.bucket = k) := fun hh => hne (hb ▸ hh.2)
     simp [this]
 
+/-! ### rewriting the row with a given id (`replace`, `replace_last`) -/
+
+theorem view_rewrite {s : St D} (h : Inv s) {b : String} {k : Int} (hk : keyOf s b = some k)
+    {t : ERow D} (ht : t ∈ s.events) (htk : t.bucket = k) (e : Ev D) :
+    view { s with events := s.events.map (fun row => if row.id = t.id then setRow e row else row) } =
+      Spec.replaceId (view s) b t.id e := by
+  apply view_onEvents h hk
+  · rw [List.filter_map, List.map_map, List.map_map]
+    have : (fun e_1 : ERow D => decide (e_1.bucket = k)) ∘
+        (fun row => if row.id = t.id then setRow e row else row) =
+        (fun e_1 : ERow D => decide (e_1.bucket = k)) := by
+      funext row; show decide ((if _ then _ else _ : ERow D).bucket = k) = _
+      split <;> rfl
+    rw [this]
+    apply List.map_congr_left
+    intro row _
+    exact toEv_setRow e t.id row
+  · intro k' hne _
+    rw [List.filter_map]
+    have : (fun e_1 : ERow D => decide (e_1.bucket = k')) ∘
+        (fun row => if row.id = t.id then setRow e row else row) =
+        (fun e_1 : ERow D => decide (e_1.bucket = k')) := by
+      funext row; show decide ((if _ then _ else _ : ERow D).bucket = k') = _
+      split <;> rfl
+    rw [this]
+    conv => rhs; rw [← List.map_id (List.filter _ s.events)]
+    apply List.map_congr_left
+    intro row hrow
+    have hm := List.mem_filter.mp hrow
+    have hb : row.bucket = k' := by simpa using hm.2
+    have : ¬ row.id = t.id := by
+      intro hid
+      have := id_inj h hm.1 ht hid
+      exact hne (by rw [← hb, this, htk])
+    simp [this]
+
+/-- membership of an id in the view of `b`, at the level of rows -/
+theorem mem_ids_iff {s : St D} (h : Inv s) {b : String} {k : Int} (hk : keyOf s b = some k) (i : Int) :
+    i ∈ Spec.ids (view s) b ↔ ∃ t ∈ s.events, t.id = i ∧ t.bucket = k := by
+  rw [ids_eq h hk]
+  unfold rowsOf
+  constructor
+  · intro hi
+    obtain ⟨t, ht, hti⟩ := List.mem_map.mp hi
+    have := List.mem_filter.mp ht
+    exact ⟨t, this.1, hti, by simpa using this.2⟩
+  · rintro ⟨t, ht, hti, htk⟩
+    exact List.mem_map.mpr ⟨t, List.mem_filter.mpr ⟨ht, by simpa using htk⟩, hti⟩
+
+theorem find_row_none_iff {s : St D} (h : Inv s) {b : String} {k : Int} (hk : keyOf s b = some k) (i : Int) :
+    s.events.find? (fun row => decide (row.id = i ∧ row.bucket = k)) = none ↔ i ∉ Spec.ids (view s) b := by
+  rw [mem_ids_iff h hk, List.find?_eq_none]
+  constructor
+  · rintro hn ⟨t, ht, hti, htk⟩
+    exact hn t ht (by simp [hti, htk])
+  · intro hn t ht hp
+    simp only [decide_eq_true_eq] at hp
+    exact hn ⟨t, ht, hp.1, hp.2⟩
+
+/-! ### replace -/
+
+theorem replace_ok {s s' : St D} {b : String} {i : Int} {e : Ev D} (hc : replace s b i e = .ok s') :
+    ∃ k t, keyOf s b = some k ∧ t ∈ s.events ∧ t.id = i ∧ t.bucket = k ∧
+      s' = { s with events := s.events.map (fun row => if row.id = t.id then setRow e row else row) } := by
+  unfold replace getRow at hc
+  cases hk : keyOf s b with
+  | none => rw [hk] at hc; cases hc
+  | some k =>
+    rw [hk] at hc
+    simp only at hc
+    cases hf : s.events.find? (fun row => decide (row.id = i ∧ row.bucket = k)) with
+    | none => rw [hf] at hc; cases hc
+    | some t =>
+      rw [hf] at hc
+      simp only [Except.ok.injEq] at hc
+      have hp := List.find?_some hf
+      simp only [decide_eq_true_eq] at hp
+      exact ⟨k, t, rfl, List.mem_of_find?_eq_some hf, hp.1, hp.2, hc.symm⟩
+
+theorem replace_inv {s s' : St D} {b : String} {i : Int} {e : Ev D} (h : Inv s)
+    (hc : replace s b i e = .ok s') : Inv s' := by
+  obtain ⟨k, t, _, _, _, _, rfl⟩ := replace_ok hc
+  apply inv_mapEvents h
+  intro r
+  split <;> exact ⟨rfl, rfl⟩
+
+/-- `replace` succeeds exactly when the id is live in the bucket, and then rewrites that event -/
+theorem replace_view {s s' : St D} {b : String} {i : Int} {e : Ev D} (h : Inv s)
+    (hc : replace s b i e = .ok s') :
+    i ∈ Spec.ids (view s) b ∧ view s' = Spec.replaceId (view s) b i e := by
+  obtain ⟨k, t, hk, ht, hti, htk, rfl⟩ := replace_ok hc
+  refine ⟨(mem_ids_iff h hk i).mpr ⟨t, ht, hti, htk⟩, ?_⟩
+  rw [← hti]
+  exact view_rewrite h hk ht htk e
+
+/-- a no-op of `Spec.replaceId`: the id is not live in the bucket -/
+theorem replaceId_notLive (v : View D) (b : String) (i : Int) (e : Ev D)
+    (hi : i ∉ Spec.ids v b) : Spec.replaceId v b i e = v := by
+  funext b'
+  by_cases hbb : b' = b
+  · subst hbb
+    unfold Spec.ids at hi
+    cases hv : v b' with
+    | none => unfold Spec.replaceId Spec.onEvents; rw [hv]; exact hv
+    | some p =>
+      obtain ⟨m, es⟩ := p
+      rw [hv] at hi
+      unfold Spec.replaceId
+      rw [Spec.onEvents_self hv]
+      congr 2
+      conv => rhs; rw [← List.map_id es]
+      apply List.map_congr_left
+      intro x hx
+      have : ¬ x.id = some i := fun hxi => hi (List.mem_filterMap.mpr ⟨x, hx, hxi⟩)
+      simp [this]
+  · exact Spec.frame_replaceId hbb
+
+/-- the id is not live in the (existing) bucket: AttributeError, and nothing to do per the list model -/
+theorem replace_notLive {s : St D} {b : String} {i : Int} {e : Ev D} (h : Inv s)
+    (hv : (view s b).isSome) (hi : i ∉ Spec.ids (view s) b) :
+    replace s b i e = .error .attributeError ∧ Spec.replaceId (view s) b i e = view s := by
+  obtain ⟨k, hk⟩ := view_isSome_keyOf h hv
+  refine ⟨?_, replaceId_notLive _ _ _ _ hi⟩
+  unfold replace getRow
+  rw [hk]
+  simp only [(find_row_none_iff h hk i).mpr hi]
+
+theorem replace_missing {s : St D} {b : String} {i : Int} {e : Ev D} (h : Inv s)
+    (hv : view s b = none) : replace s b i e = .error .keyError := by
+  unfold replace getRow
+  rw [(keyOf_none_iff h b).mpr hv]
+
+/-- with a live id `replace` succeeds -/
+theorem replace_live {s : St D} {b : String} {i : Int} {e : Ev D} (h : Inv s)
+    (hi : i ∈ Spec.ids (view s) b) : ∃ s', replace s b i e = .ok s' := by
+  cases hk : keyOf s b with
+  | none =>
+    have := (keyOf_none_iff h b).mp hk
+    unfold Spec.ids at hi; rw [this] at hi; cases hi
+  | some k =>
+    cases hf : s.events.find? (fun row => decide (row.id = i ∧ row.bucket = k)) with
+    | none => exact absurd hi ((find_row_none_iff h hk i).mp hf)
+    | some t =>
+      unfold replace getRow
+      rw [hk]
+      simp only [hf]
+      exact ⟨_, rfl⟩
+
+/-! ### delete -/
+
+theorem delete_ok {s s' : St D} {b : String} {i : Int} {n : Nat} (hc : delete s b i = .ok (s', n)) :
+    ∃ k, keyOf s b = some k ∧
+      s' = { s with events := s.events.filter (fun row => decide (¬ (row.id = i ∧ row.bucket = k))) } ∧
+      n = (s.events.filter (fun row => decide (row.id = i ∧ row.bucket = k))).length := by
+  unfold delete at hc
+  split at hc
+  · cases hc
+  · rename_i k hk
+    simp only [Except.ok.injEq, Prod.mk.injEq] at hc
+    exact ⟨k, hk, hc.1.symm, hc.2.symm⟩
+
+theorem delete_inv {s s' : St D} {b : String} {i : Int} {n : Nat} (h : Inv s)
+    (hc : delete s b i = .ok (s', n)) : Inv s' := by
+  obtain ⟨k, _, rfl, _⟩ := delete_ok hc
+  exact inv_filterEvents h _
+
+theorem delete_view {s s' : St D} {b : String} {i : Int} {n : Nat} (h : Inv s)
+    (hc : delete s b i = .ok (s', n)) :
+    view s' = Spec.delete (view s) b i ∧ n = (if i ∈ Spec.ids (view s) b then 1 else 0) := by
+  obtain ⟨k, hk, rfl, rfl⟩ := delete_ok hc
+  constructor
+  · apply view_onEvents h hk
+    · rw [List.filter_filter, List.filter_map, List.filter_filter]
+      congr 1
+      apply List.filter_congr
+      intro x _
+      by_cases hx : x.bucket = k <;> by_cases hxi : x.id = i <;> simp [hx, hxi, toEv]
+    · intro k' hne _
+      rw [List.filter_filter]
+      apply List.filter_congr
+      intro x _
+      by_cases hx : x.bucket = k'
+      · simp [hx, hne]
+      · simp [hx]
+  · have hle : (s.events.filter (fun row => decide (row.id = i ∧ row.bucket = k))).length ≤ 1 :=
+      filter_length_le_one (f := fun r : ERow D => r.id) h.eids _ i
+        (fun x _ hp => by simp only [decide_eq_true_eq] at hp; exact hp.1)
+    by_cases hi : i ∈ Spec.ids (view s) b
+    · rw [if_pos hi]
+      obtain ⟨t, ht, hti, htk⟩ := (mem_ids_iff h hk i).mp hi
+      have : t ∈ s.events.filter (fun row => decide (row.id = i ∧ row.bucket = k)) :=
+        List.mem_filter.mpr ⟨ht, by simp [hti, htk]⟩
+      have := List.length_pos_of_mem this
+      omega
+    · rw [if_neg hi]
+      have := (find_row_none_iff h hk i).mpr hi
+      rw [List.find?_eq_none] at this
+      have : s.events.filter (fun row => decide (row.id = i ∧ row.bucket = k)) = [] :=
+        List.filter_eq_nil_iff.mpr this
+      rw [this]; rfl
+
+theorem delete_missing {s : St D} {b : String} {i : Int} (h : Inv s)
+    (hv : view s b = none) : delete s b i = .error .keyError := by
+  unfold delete
+  rw [(keyOf_none_iff h b).mpr hv]
+
+theorem delete_total {s : St D} {b : String} {i : Int} (h : Inv s)
+    (hv : (view s b).isSome) : ∃ s' n, delete s b i = .ok (s', n) := by
+  obtain ⟨k, hk⟩ := view_isSome_keyOf h hv
+  unfold delete
+  rw [hk]
+  exact ⟨_, _, rfl⟩
+
+/-! ### getEvent -/
+
+theorem getEvent_eq {s : St D} {b : String} {m : Meta} {es : List (Ev D)} {i : Int} (h : Inv s)
+    (hv : view s b = some (m, es)) :
+    getEvent s b i = .ok (es.find? (fun x => decide (x.id = some i))) := by
+  obtain ⟨r, _, _, _, hk, _, rfl⟩ := view_some h hv
+  unfold getEvent getRow rowsOf
+  rw [hk]
+  show Except.ok _ = _
+  congr 1
+  rw [List.find?_map, List.find?_filter]
+  congr 1
+  apply find?_congr_mem
+  intro x _
+  by_cases hx : x.bucket = r.key <;> by_cases hxi : x.id = i <;> simp [hx, hxi, toEv]
+
+theorem getEvent_missing {s : St D} {b : String} {i : Int} (h : Inv s)
+    (hv : view s b = none) : getEvent s b i = .error .keyError := by
+  unfold getEvent getRow
+  rw [(keyOf_none_iff h b).mpr hv]
+  rfl
+
 end Aw.Store.Peewee
